@@ -14,3 +14,5 @@ def check(ctx, rep):
     _eff6.eff_6(ctx, rep)        # no memo hands one mutable result to several callers
     rep.note('Absence of shared writes => every interleaving and call order yields the sequential result. '
              'Not decided: behaviour under recursion-limit pressure, GIL-free builds.')
+    from ..rules import eff as _lm
+    _lm.lmemo_1(ctx, rep)        # an activation-local memo stores under a key only what the key determines
